@@ -2,25 +2,37 @@
 reason, and -- instead of being trusted blindly -- a *witness*: a structural condition the checker re-verifies
 on every run.  If the witness no longer holds the entry stops applying and the underlying report surfaces.
 Nothing here suppresses a rule wholesale.
+
+Statement texts are *alpha-normalised* (sa.model.alpha): the function's local names appear as $1, $2, ... in order of
+first appearance inside the statement, so the tables do not depend on how locals are called.  The original spelling
+is given in the comment of each row.
 """
 from __future__ import annotations
 
 import ast
 
-from sa.model import norm
+from sa.model import alpha, norm
 from sa.util import callee, strip_not
 
 
-# --------------------------------------------------------------------------- benign (text-preserving) mutations
-def _enclosing_if_and_prev(fn: ast.AST, stmt: ast.AST):
-    """(If node whose body directly contains stmt, statement preceding stmt in that body)"""
+def find_stmts(fn: ast.AST, pattern: str):
+    """statements of fn whose alpha-normalised text equals `pattern`"""
+    return [n for n in ast.walk(fn) if isinstance(n, ast.stmt) and alpha(n, fn) == pattern]
+
+
+def body_containing(fn: ast.AST, stmt: ast.AST):
     for n in ast.walk(fn):
-        if isinstance(n, ast.If) and stmt in n.body:
-            i = n.body.index(stmt)
-            return n, (n.body[i - 1] if i > 0 else None)
+        for fld in ("body", "orelse", "finalbody"):
+            b = getattr(n, fld, None)
+            if isinstance(b, list) and stmt in b:
+                return n, b
+        for h in getattr(n, "handlers", []) or []:
+            if stmt in h.body:
+                return h, h.body
     return None, None
 
 
+# --------------------------------------------------------------------------- benign (text-preserving) mutations
 def witness_coerce_normalisation(fn: ast.AST, stmt: ast.AST) -> bool:
     """`if not isinstance(v, NixExpression): v = coerce_expression(v); X.value = v` with `v = X.value` before."""
     if not (isinstance(stmt, ast.Assign) and len(stmt.targets) == 1 and isinstance(stmt.targets[0], ast.Attribute)
@@ -28,19 +40,17 @@ def witness_coerce_normalisation(fn: ast.AST, stmt: ast.AST) -> bool:
         return False
     tgt = stmt.targets[0]
     v = stmt.value.id
-    iff, prev = _enclosing_if_and_prev(fn, stmt)
-    if iff is None or prev is None:
+    owner, body = body_containing(fn, stmt)
+    if not isinstance(owner, ast.If) or body is not owner.body:
         return False
-    t, neg = strip_not(iff.test)
+    i = body.index(stmt)
+    prev = body[i - 1] if i > 0 else None
+    t, neg = strip_not(owner.test)
     if not (neg and isinstance(t, ast.Call) and callee(t) == "isinstance" and norm(t.args[0]) == v and norm(t.args[1]) == "NixExpression"):
         return False
-    if norm(prev) != f"{v} = coerce_expression({v})":
+    if prev is None or norm(prev) != f"{v} = coerce_expression({v})":
         return False
-    # v was loaded from the very attribute that is stored back
-    for n in ast.walk(fn):
-        if isinstance(n, ast.Assign) and norm(n) == f"{v} = {norm(tgt)}":
-            return True
-    return False
+    return any(isinstance(n, ast.Assign) and norm(n) == f"{v} = {norm(tgt)}" for n in ast.walk(fn))
 
 
 def witness_scope_state_normalisation(fn: ast.AST, stmt: ast.AST) -> bool:
@@ -49,27 +59,29 @@ def witness_scope_state_normalisation(fn: ast.AST, stmt: ast.AST) -> bool:
             and isinstance(stmt.value, ast.Name)):
         return False
     v = stmt.value.id
-    iff, prev = _enclosing_if_and_prev(fn, stmt)
-    if iff is None or prev is None:
+    owner, body = body_containing(fn, stmt)
+    if not isinstance(owner, ast.If) or body is not owner.body:
         return False
-    if norm(iff.test) != f"isinstance({v}, dict)":
-        return False
-    return norm(prev) == f"{v} = ScopeState(**{v})"
+    i = body.index(stmt)
+    prev = body[i - 1] if i > 0 else None
+    return norm(owner.test) == f"isinstance({v}, dict)" and prev is not None and norm(prev) == f"{v} = ScopeState(**{v})"
 
 
 BENIGN_MUTATIONS = [
-    # (function key, normalised statement, reason, witness)
-    ("_resolve_identifier", "binding.value = value",
+    # (function key, alpha statement, reason, witness)
+    ("_resolve_identifier", "$1.value = $2",  # binding.value = value
      "coerces a raw Python payload of a binding to the expression that renders identically (text-preserving)",
      witness_coerce_normalisation),
-    ("Scope._attrpath_order", "owner.scope_state = state",
+    ("Scope._attrpath_order", "$1.scope_state = $2",  # owner.scope_state = state
      "replaces a dict-form scope_state by the equivalent ScopeState object (text-preserving)",
      witness_scope_state_normalisation),
 ]
 
 
 def benign_mutation(func_key: str, fn: ast.AST, stmt: ast.AST) -> str | None:
-    text = norm(stmt)
+    if not isinstance(stmt, ast.stmt):
+        return None
+    text = alpha(stmt, fn)
     for fk, st, reason, wit in BENIGN_MUTATIONS:
         if fk == func_key and st == text and wit(fn, stmt):
             return reason
@@ -77,10 +89,6 @@ def benign_mutation(func_key: str, fn: ast.AST, stmt: ast.AST) -> str | None:
 
 
 # --------------------------------------------------------------------------- reviewed infeasible mutate-then-raise pairs
-def _find_stmt(fn: ast.AST, text: str):
-    return [n for n in ast.walk(fn) if isinstance(n, ast.stmt) and norm(n) == text]
-
-
 def _fresh_empty_set_ctor(e: ast.AST) -> bool:
     return isinstance(e, ast.Call) and callee(e) == "AttributeSet" and any(
         k.arg == "values" and isinstance(k.value, ast.List) and not k.value.elts for k in e.keywords)
@@ -89,64 +97,87 @@ def _fresh_empty_set_ctor(e: ast.AST) -> bool:
 def witness_npath_parent_creation(prog, fn: ast.AST) -> bool:
     """_resolve_npath_parent: the set stored by `current[key] = nested` is a fresh empty AttributeSet, the walk
     continues *inside* it (`current = nested; continue`), and creation happens only under `create_missing`."""
-    stores = _find_stmt(fn, "current[key] = nested")
+    stores = [n for n in ast.walk(fn) if isinstance(n, ast.Assign) and isinstance(n.targets[0], ast.Subscript)
+              and isinstance(n.targets[0].value, ast.Name) and isinstance(n.value, ast.Name)]
     if len(stores) != 1:
         return False
     st = stores[0]
-    for n in ast.walk(fn):
-        body = getattr(n, "body", None)
-        if isinstance(body, list) and st in body:
-            i = body.index(st)
-            nxt = [norm(x) for x in body[i + 1:i + 3]]
-            prev = body[i - 1] if i else None
-            if nxt != ["current = nested", "continue"]:
-                return False
-            if not (isinstance(prev, ast.Assign) and norm(prev.targets[0]) == "nested" and _fresh_empty_set_ctor(prev.value)):
-                return False
-            # the same handler raises when `not create_missing`, before the creation
-            first = body[0]
-            return isinstance(first, ast.If) and norm(first.test) == "not create_missing" and any(isinstance(x, ast.Raise) for x in first.body)
-    return False
+    cur, nested = st.targets[0].value.id, st.value.id
+    owner, body = body_containing(fn, st)
+    if body is None:
+        return False
+    i = body.index(st)
+    nxt = body[i + 1:i + 3]
+    prev = body[i - 1] if i else None
+    if not (len(nxt) == 2 and norm(nxt[0]) == f"{cur} = {nested}" and isinstance(nxt[1], ast.Continue)):
+        return False
+    if not (isinstance(prev, ast.Assign) and norm(prev.targets[0]) == nested and _fresh_empty_set_ctor(prev.value)):
+        return False
+    first = body[0]
+    return isinstance(first, ast.If) and norm(first.test) == "not create_missing" and any(isinstance(x, ast.Raise) for x in first.body)
 
 
 def witness_attrpath_creation(prog, fn: ast.AST) -> bool:
     """_set_attrpath_value: the appended binding is a fresh nested root over a fresh empty set and the walk
     continues inside it, so no later lookup can find an explicit/nested sibling."""
-    apps = _find_stmt(fn, "current.values.append(binding)")
-    if len(apps) != 1:
-        return False
-    st = apps[0]
-    for n in ast.walk(fn):
-        body = getattr(n, "body", None)
-        if isinstance(body, list) and st in body:
-            i = body.index(st)
-            if i < 2:
-                return False
-            mk_set, mk_b = body[i - 2], body[i - 1]
-            ok_set = isinstance(mk_set, ast.Assign) and norm(mk_set.targets[0]) == "nested_set" and _fresh_empty_set_ctor(mk_set.value)
-            ok_b = isinstance(mk_b, ast.Assign) and norm(mk_b.targets[0]) == "binding" and isinstance(mk_b.value, ast.Call) \
-                and callee(mk_b.value) == "Binding" and {(k.arg, norm(k.value)) for k in mk_b.value.keywords} >= {("value", "nested_set"), ("nested", "True")}
-            if not (ok_set and ok_b):
-                return False
-    # the loop body ends by descending into the binding's value
     loops = [n for n in ast.walk(fn) if isinstance(n, ast.For)]
-    return any(norm(l.body[-1]) == "current = binding.value" for l in loops if l.body)
+    for lp in loops:
+        for n in ast.walk(lp):
+            if isinstance(n, ast.Expr) and isinstance(n.value, ast.Call) and isinstance(n.value.func, ast.Attribute) \
+                    and n.value.func.attr == "append" and norm(n.value.func.value).endswith(".values") and n.value.args \
+                    and isinstance(n.value.args[0], ast.Name):
+                b = n.value.args[0].id
+                owner, body = body_containing(fn, n)
+                i = body.index(n)
+                if i < 2:
+                    return False
+                mk_set, mk_b = body[i - 2], body[i - 1]
+                if not (isinstance(mk_set, ast.Assign) and isinstance(mk_set.targets[0], ast.Name) and _fresh_empty_set_ctor(mk_set.value)):
+                    return False
+                s_ = mk_set.targets[0].id
+                ok_b = isinstance(mk_b, ast.Assign) and norm(mk_b.targets[0]) == b and isinstance(mk_b.value, ast.Call) \
+                    and callee(mk_b.value) == "Binding" and {(k.arg, norm(k.value)) for k in mk_b.value.keywords} >= {("value", s_), ("nested", "True")}
+                if not ok_b:
+                    return False
+                cur = norm(n.value.func.value)[:-len(".values")]
+                return bool(lp.body) and norm(lp.body[-1]) == f"{cur} = {b}.value"
+    return False
+
+
+def scope_creation_parts(fn: ast.AST):
+    """(layers var, depth var, target var) of set_value / remove_value, found through their defining calls"""
+    layers = depth = target = None
+    for n in ast.walk(fn):
+        if isinstance(n, ast.Assign) and isinstance(n.value, ast.Call) and callee(n.value) == "_collect_scope_layers" and isinstance(n.targets[0], ast.Name):
+            layers = n.targets[0].id
+            if n.value.args and isinstance(n.value.args[0], ast.Name):
+                target = n.value.args[0].id
+        if isinstance(n, ast.Assign) and isinstance(n.targets[0], ast.Tuple) and len(n.targets[0].elts) == 2 \
+                and isinstance(n.value, ast.Name) and isinstance(n.targets[0].elts[0], ast.Name):
+            src_defs = [d for d in ast.walk(fn) if isinstance(d, ast.Assign) and norm(d.targets[0]) == n.value.id
+                        and isinstance(d.value, ast.Call) and callee(d.value) == "_split_scope_npath"]
+            if src_defs:
+                depth = n.targets[0].elts[0].id
+    return layers, depth, target
 
 
 def witness_scope_creation_guard(prog, fn: ast.AST) -> bool:
     """set_value: the layer-creation arm (which moves before/after of the target) runs only under
     `not layers and depth == 1` and appends exactly one layer, so `depth > len(layers)` is false afterwards."""
     from sa.cfg import CFG, edges_establishing
+    layers, depth, target = scope_creation_parts(fn)
+    if not (layers and depth and target):
+        return False
     cfg = CFG(fn)
-    muts = [n for n in cfg.nodes if n.kind == "stmt" and norm(n.ast) in ("target_expr.before = []", "target_expr.after = []")]
+    muts = [n for n in cfg.nodes if n.kind == "stmt" and norm(n.ast) in (f"{target}.before = []", f"{target}.after = []")]
     if len(muts) != 2:
         return False
 
     def depth_one(a, truth):
-        return isinstance(a, ast.Compare) and norm(a) == "depth == 1" and truth is True
+        return isinstance(a, ast.Compare) and norm(a) == f"{depth} == 1" and truth is True
 
     def no_layers(a, truth):
-        return (norm(a) == "layers" and truth is False) or (norm(a) == "len(layers) == 0" and truth is True)
+        return (norm(a) == layers and truth is False) or (norm(a) == f"len({layers}) == 0" and truth is True)
 
     e1, e2 = edges_establishing(cfg, depth_one), edges_establishing(cfg, no_layers)
     if not e1 or not e2:
@@ -154,83 +185,92 @@ def witness_scope_creation_guard(prog, fn: ast.AST) -> bool:
     for m in muts:
         if not (cfg.all_paths_pass(m, cut_edges=e1) and cfg.all_paths_pass(m, cut_edges=e2)):
             return False
-    appends = [n for n in cfg.nodes if n.kind == "stmt" and norm(n.ast) == "layers.append(new_layer)"]
-    if len(appends) != 1 or not cfg.all_paths_pass(muts[0], cut_nodes=appends):
+    appends = [n for n in cfg.nodes if n.kind == "stmt" and isinstance(n.ast, ast.Expr) and isinstance(n.ast.value, ast.Call)
+               and norm(n.ast.value.func) == f"{layers}.append"]
+    in_arm = [a for a in appends if cfg.all_paths_pass(a, cut_edges=e1) and cfg.all_paths_pass(a, cut_edges=e2)]
+    if len(in_arm) != 1 or not cfg.all_paths_pass(muts[0], cut_nodes=in_arm):
         return False
     return True
 
 
 def witness_scope_creation_fresh_layer(prog, fn: ast.AST) -> bool:
     """set_value: the created layer's scope is a fresh empty Scope() and the path was already formatted once
-    (`_format_npath_segments(scope_npath)`) before the mutation, the only rejection an empty set can produce."""
+    (`_format_npath_segments(<scope path>)`) before the mutation, the only rejection an empty set can produce."""
     if not witness_scope_creation_guard(prog, fn):
         return False
     from sa.cfg import CFG
+    layers, depth, target = scope_creation_parts(fn)
     cfg = CFG(fn)
-    new_layer = [n for n in ast.walk(fn) if isinstance(n, (ast.Assign, ast.AnnAssign)) and norm(n.targets[0] if isinstance(n, ast.Assign) else n.target) == "new_layer"]
-    if len(new_layer) != 1 or not isinstance(new_layer[0].value, ast.Dict):
+    dicts = [n for n in ast.walk(fn) if isinstance(n, (ast.Assign, ast.AnnAssign)) and isinstance(n.value, ast.Dict)
+             and {norm(k) for k in n.value.keys} >= {"'scope'", "'attrpath_order'"}]
+    if len(dicts) != 1:
         return False
-    d = dict(zip([norm(k) for k in new_layer[0].value.keys], new_layer[0].value.values))
+    d = dict(zip([norm(k) for k in dicts[0].value.keys], dicts[0].value.values))
     if norm(d.get("'scope'")) != "Scope()" or norm(d.get("'attrpath_order'")) != "[]":
         return False
-    fmt = [n for n in cfg.nodes if n.kind == "stmt" and "_format_npath_segments(scope_npath)" in norm(n.ast)]
-    muts = [n for n in cfg.nodes if n.kind == "stmt" and norm(n.ast) == "target_expr.before = []"]
+    fmt = [n for n in cfg.nodes if n.kind == "stmt" and "_format_npath_segments(" in norm(n.ast)]
+    muts = [n for n in cfg.nodes if n.kind == "stmt" and norm(n.ast) == f"{target}.before = []"]
     if not fmt or not muts:
         return False
     if cfg.all_paths_pass(muts[0], cut_nodes=fmt):
         return True
-    # the formatting call sits under `isinstance(target_expr, AttributeSet)`, which always holds because
-    # target_expr is the result of _resolve_target_set (declared `-> AttributeSet`)
-    tests = [(n, False) for n in cfg.nodes if n.kind == "test" and norm(n.ast) == "isinstance(target_expr, AttributeSet)"]
+    # the formatting call sits under `isinstance(target, AttributeSet)`, which always holds because
+    # target is the result of _resolve_target_set (declared `-> AttributeSet`)
+    tests = [(n, False) for n in cfg.nodes if n.kind == "test" and norm(n.ast) == f"isinstance({target}, AttributeSet)"]
     rts = prog.funcs.get("_resolve_target_set")
     declared = rts is not None and rts.node.returns is not None and norm(rts.node.returns) == "AttributeSet"
-    defs = [n for n in ast.walk(fn) if isinstance(n, ast.Assign) and norm(n.targets[0]) == "target_expr"]
-    from_resolver = bool(defs) and all(isinstance(d.value, ast.Call) and callee(d.value) == "_resolve_target_set" for d in defs)
+    defs = [n for n in ast.walk(fn) if isinstance(n, ast.Assign) and norm(n.targets[0]) == target]
+    from_resolver = bool(defs) and all(isinstance(d_.value, ast.Call) and callee(d_.value) == "_resolve_target_set" for d_ in defs)
     return bool(tests) and declared and from_resolver and cfg.all_paths_pass(muts[0], cut_nodes=fmt, cut_edges=tests)
 
 
 def witness_created_parent_is_empty(prog, fn: ast.AST) -> bool:
     """_set_value_in_attrset: the assign-through arm after `_resolve_npath_parent(create_missing=True)` runs only when
-    `_find_binding(parent_set, final_key)` found a binding, i.e. when the parent already existed (a created parent
+    `_find_binding(parent, final_key)` found a binding, i.e. when the parent already existed (a created parent
     is empty), so nothing was created on that path."""
     from sa.cfg import CFG, edges_establishing
     cfg = CFG(fn)
-    defs = [n for n in ast.walk(fn) if isinstance(n, ast.Assign) and norm(n) == "existing_binding = _find_binding(parent_set, final_key)"]
-    if len(defs) != 1:
-        return False
-    unpack = [n for n in ast.walk(fn) if isinstance(n, ast.Assign) and norm(n.targets[0]) == "(parent_set, final_key)"
+    unpack = [n for n in ast.walk(fn) if isinstance(n, ast.Assign) and isinstance(n.targets[0], ast.Tuple) and len(n.targets[0].elts) == 2
               and isinstance(n.value, ast.Call) and callee(n.value) == "_resolve_npath_parent"]
     if len(unpack) != 1:
         return False
-    calls = [n for n in cfg.nodes if n.kind == "stmt" and "_assign_through_identifier(existing_binding.value)" in norm(n.ast)
-             or n.kind == "test" and "_assign_through_identifier(existing_binding.value)" in norm(n.ast)]
+    parent, final = (norm(x) for x in unpack[0].targets[0].elts)
+    defs = [n for n in ast.walk(fn) if isinstance(n, ast.Assign) and isinstance(n.value, ast.Call) and callee(n.value) == "_find_binding"
+            and [norm(a) for a in n.value.args] == [parent, final] and isinstance(n.targets[0], ast.Name)]
+    if len(defs) != 1:
+        return False
+    eb = defs[0].targets[0].id
+    calls = [n for n in cfg.nodes if n.ast is not None and n.kind in ("stmt", "test") and f"_assign_through_identifier({eb}.value)" in norm(n.ast)]
     if not calls:
         return False
 
     def found(a, truth):
-        return norm(a) == "existing_binding is not None" and truth is True
+        return norm(a) == f"{eb} is not None" and truth is True
 
     e = edges_establishing(cfg, found)
     return bool(e) and all(cfg.all_paths_pass(c, cut_edges=e) for c in calls)
 
 
 INFEASIBLE_PAIRS = [
-    # (function, normalised mutation statement, raise-statement prefix, reason, witness)
-    ("_resolve_npath_parent", "current[key] = nested", "raise ValueError(f'NPath segment does not point to an attribute set",
+    # (function, alpha mutation statement, alpha raise-statement prefix, reason, witness)
+    ("_resolve_npath_parent", "$1[$2] = $3",  # current[key] = nested
+     "raise ValueError(f'NPath segment does not point to an attribute set",
      "after a creation `current` is the fresh empty set, whose lookup always takes the KeyError arm", witness_npath_parent_creation),
-    ("_resolve_npath_parent", "current[key] = nested", "raise KeyError(f'NPath segment not found",
+    ("_resolve_npath_parent", "$1[$2] = $3", "raise KeyError(f'NPath segment not found",
      "creation and this raise are selected by the same constant flag create_missing", witness_npath_parent_creation),
-    ("_set_attrpath_value", "current.values.append(binding)", "raise ValueError(f'Mixed explicit binding inside attrpath: {seg}')",
+    ("_set_attrpath_value", "$1.values.append($2)",  # current.values.append(binding)
+     "raise ValueError(f'Mixed explicit binding inside attrpath: {$1}')",
      "the walk continues inside the fresh nested set, which has no explicit sibling", witness_attrpath_creation),
-    ("_set_attrpath_value", "current.values.append(binding)", "raise ValueError(f'NPath segment does not point to an attribute set: {seg}')",
+    ("_set_attrpath_value", "$1.values.append($2)", "raise ValueError(f'NPath segment does not point to an attribute set: {$1}')",
      "the created binding's value is an AttributeSet by construction", witness_attrpath_creation),
-    ("_set_attrpath_value", "current.values.append(binding)", "raise ValueError(f'Mixed explicit binding inside attrpath: {final_key}')",
-     "the leaf lookup runs on the fresh empty set", witness_attrpath_creation),
-    ("set_value", "target_expr.before = []", "raise ValueError('Requested scope layer does not exist')",
+    ("set_value", "$1.before = []",  # target_expr.before = []
+     "raise ValueError('Requested scope layer does not exist')",
      "the creation arm runs only with depth == 1 and makes len(layers) == 1", witness_scope_creation_guard),
-    ("set_value", "target_expr.before = []", "_set_value_in_attrset(attrset, scope_npath, value_expr, let_bindings=let_bindings)",
+    ("set_value", "$1.before = []", "_set_value_in_attrset($1, $2, $3, let_bindings=$4)",
      "the set is the fresh empty layer and the path was formatted successfully before the mutation", witness_scope_creation_fresh_layer),
-    ("_set_value_in_attrset", "_resolve_npath_parent(target_set, npath, create_missing=True)", "identifier.value = value_expr",
+    ("_set_value_in_attrset", "($1, $2) = _resolve_npath_parent($3, $4, create_missing=True)", "$1.value = $2",  # identifier.value = value_expr
+     "assign-through needs an existing binding in the parent; a created parent is empty", witness_created_parent_is_empty),
+    ("_set_value_in_attrset", "_resolve_npath_parent($1, $2, create_missing=True)", "$1.value = $2",
      "assign-through needs an existing binding in the parent; a created parent is empty", witness_created_parent_is_empty),
 ]
 
